@@ -1,1 +1,11 @@
 import PysamlModel.Props.C06
+#print axioms C06.C06_correlated
+#print axioms C06.C06_shape
+#print axioms C06.C06_status
+#print axioms C06.C06_version
+#print axioms C06.C06_model_meets_spec
+#print axioms C06.C06_table_complete
+#print axioms C06.C06_table_names
+#print axioms C06.C06_table_functional
+#print axioms C06.C06_table_size
+#print axioms C06.C06_table_views_agree
